@@ -60,6 +60,19 @@ case "$ID" in
     "$BIN/vsched-$ID" "$ID" "$@"
     exit $? ;;
 esac
+case "$ID" in
+  C10|C08)
+    # sequential check + concurrent-callers phase: prover helpers instrumented, run under the scheduler.
+    # If the tree cannot be instrumented the plain build runs (phase recorded as not explored).
+    FILES="prover/marshal.go prover/insertion_proving_system.go prover/deletion_proving_system.go"
+    if go build -C "$HERE" -modfile="$SCRATCH/go.mod" -o "$BIN/instrument" ./cmd/instrument 2> "$SCRATCH/build3.log" \
+       && "$BIN/instrument" -repo "$VERIF_REPO" -rt "$HERE/verifrt" -out "$SCRATCH/ins-$ID" $FILES 2> "$SCRATCH/ins.log" \
+       && go build -C "$HERE" -modfile="$SCRATCH/go.mod" -overlay "$SCRATCH/ins-$ID/overlay.json" -tags verif -o "$BIN/vsched-$ID" ./cmd/vsched 2> "$SCRATCH/build4.log"; then
+      "$BIN/vsched-$ID" "$ID" "$@"
+      exit $?
+    fi
+    cat "$SCRATCH/build3.log" "$SCRATCH/ins.log" "$SCRATCH/build4.log" >&2 2>/dev/null ;;
+esac
 "$BIN/vcheck" "$ID" "$@"
 rc=$?
 exit $rc
